@@ -321,6 +321,10 @@ func (s *Store[K, V]) GetWithSecodary(key K) (V, bool, error) {
 		// load and store should be atomic
 		shard.mu.Lock()
 		defer shard.mu.Unlock()
+		// the call leaves the group before the shard is released: once the value is visible it can
+		// be deleted, evicted or expire again, and a Get that misses after that must not be handed
+		// this call's result
+		defer shard.vgroup.Forget(key)
 		// a closed cache misses, it does not keep serving from the secondary cache
 		if shard.closed {
 			return v, &NotFound{}
@@ -1368,6 +1372,10 @@ func (s *LoadingStore[K, V]) Get(ctx context.Context, key K) (V, error) {
 			// load and store should be atomic
 			shard.mu.Lock()
 			defer shard.mu.Unlock()
+			// the call leaves the group before the shard is released: once the value is visible it can
+			// be deleted, evicted or expire again, and a Get that misses after that must load again
+			// instead of being handed this call's result
+			defer shard.group.Forget(key)
 			if shard.closed {
 				return Loaded[V]{}, ErrCacheClosed
 			}
